@@ -206,8 +206,15 @@ func FindRendezvous(p *Prog) (*Rendezvous, error) {
 	}
 	sort.Slice(rv.Handlers, func(i, j int) bool { return rv.Handlers[i].Pos() < rv.Handlers[j].Pos() })
 	// queueing function: method of Ctl that sends its func() parameter on ReqField
+	// (methods of the controller, or functions that take it as their first parameter)
+	ofCtl := func(fn *ssa.Function) bool {
+		if fn.Signature.Recv() != nil {
+			return typeName(fn.Signature.Recv().Type()) == rv.Ctl.Obj().Name()
+		}
+		return len(fn.Params) > 0 && typeName(fn.Params[0].Type()) == rv.Ctl.Obj().Name() && fn.Parent() == nil
+	}
 	for _, fn := range p.LibFuncs() {
-		if fn.Signature.Recv() == nil || typeName(fn.Signature.Recv().Type()) != rv.Ctl.Obj().Name() {
+		if !ofCtl(fn) {
 			continue
 		}
 		Instrs(fn, func(in ssa.Instruction) {
@@ -241,7 +248,7 @@ func FindRendezvous(p *Prog) (*Rendezvous, error) {
 	for changed := true; changed; {
 		changed = false
 		for _, fn := range p.LibFuncs() {
-			if rv.Queues[fn] || fn.Signature.Recv() == nil || typeName(fn.Signature.Recv().Type()) != rv.Ctl.Obj().Name() {
+			if rv.Queues[fn] || !ofCtl(fn) {
 				continue
 			}
 			Instrs(fn, func(in ssa.Instruction) {
@@ -257,6 +264,32 @@ func FindRendezvous(p *Prog) (*Rendezvous, error) {
 				}
 			})
 		}
+	}
+	// the entry point handlers use is the wrapper that tests a boolean field of the controller
+	// (the active flag) before handing off; with several wrappers that one is the anchor
+	var flagged []*ssa.Function
+	for q := range rv.Queues {
+		tests := false
+		Instrs(q, func(in ssa.Instruction) {
+			if iff, ok := in.(*ssa.If); ok {
+				v := iff.Cond
+				if u, isU := v.(*ssa.UnOp); isU && u.Op == token.NOT {
+					v = u.X
+				}
+				if o, _, _, okf := FieldOf(v); okf && o == rv.Ctl.Obj().Name() {
+					if b, isB := v.Type().Underlying().(*types.Basic); isB && b.Kind() == types.Bool {
+						tests = true
+					}
+				}
+			}
+		})
+		if tests {
+			flagged = append(flagged, q)
+		}
+	}
+	sort.Slice(flagged, func(i, j int) bool { return flagged[i].Pos() < flagged[j].Pos() })
+	if len(flagged) > 0 {
+		rv.Queue = flagged[0]
 	}
 	// request closures: every value flowing into a queueing function's parameter
 	seen := map[*ssa.Function]bool{}
